@@ -174,23 +174,14 @@ def handle (line : String) : String :=
     | some m, some tr, some metas, some watch, some nwait =>
       let closedOk := kv "closed" obs == some "ok"
       let late := (kv "late" obs).bind String.toNat?
-      -- The LTS models the plain-HTTP arm of the accept loop, where the listener lives until
-      -- the server task has finished.  The HTTPS arm owns its acceptor (and the listener) in the
-      -- loop's scope and drops it as soon as the loop ends, so there a connect can be refused
-      -- while in-flight requests are still being served - allowed by the property (the port must
-      -- be closed once shutdown has finished; `specPort` below judges the whole trace).  For
-      -- HTTPS traces the refused connects seen before the first released waiter are therefore
-      -- not fed to the LTS.
+      -- HTTPS traces go through the HTTPS arm's variant of the LTS (`stepTls`: the listener is
+      -- dropped when the accept loop ends, so a connect can be refused while in-flight requests
+      -- are still being served)
       let tls : Bool := decide ((plan.splitOn "tls").length > 1)
-      let rec dropEarly : List Event → List Event
-        | [] => []
-        | .waiterReleased i r :: rest => .waiterReleased i r :: rest
-        | .connectRefused :: rest => dropEarly rest
-        | e :: rest => e :: dropEarly rest
-      let full := elaborate (if tls then dropEarly tr else tr)
-      let agree := acceptsSettled m full
+      let full := if tls then elaborateTls tr else elaborate tr
+      let agree := if tls then acceptsSettledTls m full else acceptsSettled m full
       let model :=
-        match firstRejected m init full 0 with
+        match (if tls then firstRejectedTls m init full 0 else firstRejected m init full 0) with
         | some (i, e) => s!"rejected@{i}:{showEvent e}"
         | none => if agree then "accepted" else "accepted-not-settled"
       let cWaits := specWaitsAll tr
